@@ -137,6 +137,10 @@ func c02Scenarios(c *vlib.Ctx) []c02Scenario {
 			// the same with the task manager's own bookkeeping of the failure held up (delay point at the
 			// start of its goroutine): the task has lost its executor id but its role is still active
 			c02Scenario{Transition: "START_ACTIVITY", Hosts: 2, Tasks: []c02Task{{Name: "victim", Critical: true, Mode: "direct", Host: 1, Outcome: "exec-lost-racing"}, {Name: "bc", Critical: true, Mode: "direct", Host: 2, Outcome: "ok"}}},
+			// the only task of the workflow loses its executor: nothing is left to command
+			c02Scenario{Transition: "START_ACTIVITY", Hosts: 2, Tasks: []c02Task{{Name: "victim", Critical: true, Mode: "direct", Host: 1, Outcome: "exec-lost-before"}}},
+			// a silent non-critical target next to a critical one that acknowledges (a multi-target command)
+			c02Scenario{Transition: "START_ACTIVITY", Hosts: 2, Tasks: []c02Task{{Name: "victim", Critical: false, Mode: "basic", Host: 1, Outcome: "silent"}, {Name: "bc", Critical: true, Mode: "direct", Host: 2, Outcome: "ok"}}},
 			// the task itself dies (TASK_FAILED) 80 ms before the request
 			c02Scenario{Transition: "START_ACTIVITY", Hosts: 2, Tasks: []c02Task{{Name: "victim", Critical: true, Mode: "fairmq", Host: 1, Outcome: "task-failed-before"}, {Name: "bc", Critical: true, Mode: "direct", Host: 2, Outcome: "ok"}}},
 			c02Scenario{Transition: "STOP_ACTIVITY", Hosts: 2, Tasks: []c02Task{{Name: "victim", Critical: true, Mode: "direct", Host: 1, Outcome: "task-failed-before"}, {Name: "bn", Critical: false, Mode: "basic", Host: 2, Outcome: "ok"}}},
@@ -145,7 +149,7 @@ func c02Scenarios(c *vlib.Ctx) []c02Scenario {
 	} else {
 		for _, tr := range []string{"START_ACTIVITY", "STOP_ACTIVITY", "RESET"} {
 			for _, vcrit := range []bool{true, false} {
-				for shape := 1; shape <= 3; shape++ {
+				for shape := 0; shape <= 3; shape++ {
 					sc := c02Scenario{Transition: tr, Hosts: 2}
 					oc := "exec-lost-before"
 					if shape == 3 {
